@@ -25,5 +25,5 @@ Print Assumptions C09_validate_order.
 
 (* observers do not change the parser: a repeated Output on the same state is the same function application *)
 Theorem C09_repeat_output : forall o st, snd (step o st OOutput) = snd (step o (fst (step o st OOutput)) OOutput).
-Proof. intros o st. unfold step. destruct (failed st); reflexivity. Qed.
+Proof. intros o st. unfold step. destruct (failed st) eqn:F; cbn [fst snd]; rewrite F; reflexivity. Qed.
 Print Assumptions C09_repeat_output.
